@@ -30,6 +30,29 @@ CLAIMED = {
         "technique": "Coq-verified table validator + N(T) soundness theorem + LR driver simulation proof; differential correspondence",
         "design": "DESIGN.md section 7, C04",
     },
+    "C01": {
+        "text": "Unbounded Coq theorem C01_forest_valid: the local boolean check forest_ok, run on every forest the impl "
+                "returns, implies that EVERY tree of that forest (any number, any sharing) is a derivation tree of the input "
+                "(productions applied in order, root = start symbol, leaves = a tokenisation of the input with layout only "
+                "between/after tokens); C01_nlr_sound: any accepting run over a table passing table_struct yields a derivation. "
+                "The 'sentence => accepted' direction is decided per case against a reference recognizer whose derivations are "
+                "certified by the proved-exact checker tree_ok.",
+        "note": "Partial: no model of the GLR driver and no completeness theorem; cyclic forests are not validated by forest_ok. "
+                "Trusted: Coq kernel, extraction, OCaml driver, forest/table dumps, match matrix from the impl's recognizers.",
+        "technique": "Coq-verified forest validator on impl artefacts + N(T) soundness theorem; certified reference recognizer",
+        "design": "DESIGN.md section 7, C01",
+    },
+    "C02": {
+        "text": "The universal claim is refuted on the unchanged tree: theorem C02_refuted exhibits a certified derivation absent "
+                "from the forest the impl returns (known finding KF-C02-lost-derivations). The check enumerates reference "
+                "derivations, certifies each with tree_ok (proved exact) and searches it in root_trees of the impl forest (the "
+                "specification tied to len/forest[i] by the C03 theorems); an absent derivation is a certified counterexample, "
+                "attributed to the known finding only when the frozen baseline implementation loses exactly the same derivations.",
+        "note": "No theorem about the GLR driver (not modelled); completeness of the reference enumerator is not proved. "
+                "Trusted: Coq kernel, extraction, harness dumps, baseline snapshot used only to classify known-finding instances.",
+        "technique": "Coq refutation witness + verified derivation checker and forest enumeration; certified differential oracle",
+        "design": "DESIGN.md section 7, C02",
+    },
 }
 
 NOT_YET = "machinery for this property is not built yet in this commit (planned, see DESIGN.md section 12)"
